@@ -11,6 +11,7 @@ C15 driver (Float; floats as 16-hex-digit bit patterns).
   get  <kind> <scale>                              -> adaptable parameter
   set  <kind> <value>                              -> scale
   dirlp <n> conc.. x..                             -> Dirichlet(conc).log_prob(x)
+  prec <scaler> <u1> <u2>                          -> precision multiplier of the block update, uniforms consumed
   step <machine> <tape> <target table>             -> one `TT.C15.mcmcStep`
 
 `step` payload, all space separated:
@@ -18,7 +19,8 @@ C15 driver (Float; floats as 16-hex-digit bit patterns).
   logJoint epoch acceptTotal
   nops, then per operator:
      kind pidxLen pidx.. target disabled windowLen scale adaptCount accept reject wlen w..
-     and for kind hmc:  steps diag|dense n IM.. G(n*n).. b..     (joint gradient -(G q + b))
+     and for kind hmc:  steps diag|dense n IM.. G(n*n).. b.. lo hi
+                        (joint gradient -(G q + b); the stub target is nan where q_0 < lo or q_0 > hi)
   nr rands..  ni ints..  nd (len v..)*nd  nn (len v..)*nn
   K, then K entries: values(flattened state) fin|bad value     (target: nearest recorded state)
 reply:
@@ -74,6 +76,8 @@ structure HmcCfg where
   im : Array Float
   G : Array Float
   b : Array Float
+  lo : Float
+  hi : Float
 
 def vecOf (a : Array Float) (n : Nat) : TT.C16.Vec Float n := fun i => a.getD i.val 0.0
 
@@ -90,9 +94,16 @@ def hmcRun (c : HmcCfg) (eps : Float) (q : List Float) (normals : List (List Flo
     let g : TT.C16.Vec Float n → TT.C16.Vec Float n := fun x i =>
       -((sumFin fun j : Fin n => c.G.getD (i.val * n + j.val) 0.0 * x j) + c.b.getD i.val 0.0)
     let ms := (normals.take 10).map fun m => vecOf m.toArray n
-    match TT.C16.hmcStep (fun _ => false) g (eps / 2.0) eps 0.5 im c.steps (vecOf q.toArray n) 10 ms with
-    | .ok q' hr => ((List.finRange n).map q', .fin hr, 1)
-    | .inf q' => ((List.finRange n).map q', .inf, min 10 normals.length)
+    let bad : TT.C16.Vec Float n → Bool := fun x =>
+      match (List.finRange n).head? with
+      | some i0 => x i0 < c.lo || x i0 > c.hi
+      | none => false
+    let qv := vecOf q.toArray n
+    -- draws consumed: the failed trials and the first one that does not raise
+    let failed := (ms.takeWhile fun m => TT.C16.trialRaises bad g (eps / 2.0) eps im c.steps qv m).length
+    match TT.C16.hmcStep bad g (eps / 2.0) eps 0.5 im c.steps qv 10 ms with
+    | .ok q' hr => ((List.finRange n).map q', .fin hr, failed + 1)
+    | .inf q' => ((List.finRange n).map q', .inf, failed)
 
 def parseOp (i : Nat) : P (Op Float × Option HmcCfg) := do
   let k ← kind
@@ -118,7 +129,9 @@ def parseOp (i : Nat) : P (Op Float × Option HmcCfg) := do
     let im ← many (if dense then n * n else n) flt
     let G ← many (n * n) flt
     let b ← many n flt
-    pure (op, some ⟨steps, dense, n, im.toArray, G.toArray, b.toArray⟩)
+    let lo ← flt
+    let hi ← flt
+    pure (op, some ⟨steps, dense, n, im.toArray, G.toArray, b.toArray, lo, hi⟩)
   else pure (op, none)
 
 def unflat (sizes : List Nat) (v : List Float) : Params Float := splitBy sizes v
@@ -222,6 +235,9 @@ def handle (line : String) : String :=
         let n ← n.toNat?
         let xs ← rest.mapM parseFloatBits
         if xs.length ≠ 2 * n then none else pure (showF (dirLogProbF (xs.take n) (xs.drop n)))
+    | ["prec", sc, u1, u2] => do
+        let r := precisionMultiplier (← parseFloatBits sc) [← parseFloatBits u1, ← parseFloatBits u2]
+        pure s!"{showF r.1} {r.2}"
     | "step" :: rest => runStep.run' rest
     | _ => none
   r.getD "bad-op"
